@@ -33,7 +33,8 @@ Offs == {"origin", "neg", "far", "x0", "y0"}
 Ress == {1, 7, 10, 13, 20, 25, 50, 70, 200}
 Cases(kind) == UNION { {[op |-> "segmented", kind |-> kind, off |-> o, m |-> m, r |-> r] : o \in Offs, m \in {1, 2}, r \in Ress},
                        {[op |-> op, kind |-> kind, off |-> o, m |-> 1, r |-> r] : op \in {"to_crs_family"}, o \in Offs, r \in {0, 7, 25}},
-                       {[op |-> op, kind |-> kind, off |-> o, m |-> 1, r |-> 0] : op \in {"to_crs_same_spelling", "to_crs_no_crs"}, o \in {"origin", "far"}},
+                       \* the source's own CRS in another spelling: the SAME object comes back - also when a densification step (r > 0; -1: "auto") was asked for
+                       {[op |-> op, kind |-> kind, off |-> o, m |-> 1, r |-> r] : op \in {"to_crs_same_spelling", "to_crs_no_crs"}, o \in {"origin", "far"}, r \in {0, 7, -1}},
                        \* prior: what the process did with this CRS pair before (the transformer cache is keyed by pair and axis-order flag;
                        \* to_crs must map vertices as the projection library does whatever was requested earlier)
                        \* r = -1: resolution "auto" (the library picks the densification step); fix: also asked to check-and-fix the (valid) result - nothing to fix
